@@ -147,8 +147,13 @@ func (f *StructField) GenSkipProcess() (string, error) {
 }
 
 func (f *StructField) GenReadFrom() (string, error) {
-	return fmt.Sprintf(
-		"value.%[1]s, err = context.%[1]s_context.Parse(reader.Delegate(int(l)), ignoreCritical)",
-		f.name,
-	), nil
+	// Delegate silently yields an empty reader when the length exceeds the input,
+	// so a truncated nested structure has to be rejected here
+	var g strErrBuf
+	g.printlnf("if l > enc.TLNum(reader.Length()-reader.Pos()) {")
+	g.printlnf("err = io.ErrUnexpectedEOF")
+	g.printlnf("} else {")
+	g.printlnf("value.%[1]s, err = context.%[1]s_context.Parse(reader.Delegate(int(l)), ignoreCritical)", f.name)
+	g.printlnf("}")
+	return g.output()
 }
